@@ -41,6 +41,7 @@ type Stage struct {
 func (s *Stage) UpdateStatus(status int32) {
 	verifStatus(s, status)
 	atomic.StoreInt32(&s.Status, status)
+	verifStatusStored(s, status)
 }
 
 // start moves a waiting stage to Running and reports whether it did. A graph can be scheduled by
